@@ -1,4 +1,5 @@
 import NanoVerif.Proofs.Stats
+import Mathlib.Data.Rat.Floor
 /-!
   C20 — order statistics and histograms are consistent with a sorted-array reference.
 
@@ -85,9 +86,9 @@ theorem percentileSorted_rejects (xs : List α) (p : α) :
     rcases h with h | h
     · exact absurd h0 (not_le.mpr h)
     · exact absurd h100 (not_le.mpr h)
-  split
-  · rfl
-  · simp [this]
+  by_cases he : xs.isEmpty = true
+  · rw [if_pos he]
+  · rw [if_neg he, if_pos this]
 
 /-- `List.mergeSort` (the sort the driver runs) satisfies the contract of `std::sort` -/
 theorem mergeSort_sortSpec : SortSpec (msort : List α → List α) :=
@@ -220,9 +221,10 @@ theorem bin_stats_spec (ts vs : List α) (hts : ts.Pairwise (· ≤ ·)) (hvs : 
       percentile_spec (vs.filter (inBin ts i)) 50 h (by norm_num) (by norm_num)
     exact ⟨_, hv⟩
 
-/-- **binOf_spec.** For sorted thresholds and **every** query `v` (integral or not), `bin(v)` is a valid bin index and
-    it is the bin the counting rule assigns to `v`: `ts[bin-1] ≤ v < ts[bin]` (sentinels `∓∞`). -/
-theorem binOf_spec (ts : List α) (hts : ts.Pairwise (· ≤ ·)) (v : α) :
+/-- **binOf_spec.** For **every** query `v` (integral or not), `bin(v)` is a valid bin index and it is a bin the
+    counting rule assigns to `v`: `ts[bin-1] ≤ v < ts[bin]` (sentinels `∓∞`); for sorted thresholds (which the
+    constructor establishes) it is the only one (`binOf_unique`). -/
+theorem binOf_spec (ts : List α) (v : α) :
     binOf ts v ≤ ts.length ∧ inBin ts (binOf ts v) v = true ∧
       (∀ t, 0 < binOf ts v → ts[binOf ts v - 1]? = some t → t ≤ v) ∧ (∀ t, ts[binOf ts v]? = some t → v < t) := by
   have hrule : (∀ t, 0 < binOf ts v → ts[binOf ts v - 1]? = some t → t ≤ v) ∧
@@ -234,7 +236,7 @@ theorem binOf_spec (ts : List α) (hts : ts.Pairwise (· ≤ ·)) (v : α) :
 /-- … and it is the only such bin: the counting rule assigns exactly one bin to every `v`. -/
 theorem binOf_unique (ts : List α) (hts : ts.Pairwise (· ≤ ·)) (v : α) (i : ℕ) (hi : i ≤ ts.length)
     (h : inBin ts i v = true) : i = binOf ts v := by
-  obtain ⟨hb, -, hlo, hhi⟩ := binOf_spec ts hts v
+  obtain ⟨hb, -, hlo, hhi⟩ := binOf_spec ts v
   obtain ⟨ilo, ihi⟩ := (inBin_iff ts i v).mp h
   rcases Nat.lt_trichotomy i (binOf ts v) with hlt | heq | hgt
   · -- ts[i] exists, v < ts[i] ≤ ts[bin - 1] ≤ v
@@ -257,7 +259,7 @@ theorem binOf_unique (ts : List α) (hts : ts.Pairwise (· ≤ ·)) (v : α) (i 
 /-- a value of the data set is found in the bin that `bin(v)` names -/
 theorem binOf_mem (ts vs : List α) (hts : ts.Pairwise (· ≤ ·)) (hvs : vs.Pairwise (· ≤ ·)) (v : α) (hv : v ∈ vs) :
     ∃ b, (bins ts vs)[binOf ts v]? = some b ∧ v ∈ b := by
-  obtain ⟨hb, hin, -, -⟩ := binOf_spec ts hts v
+  obtain ⟨hb, hin, -, -⟩ := binOf_spec ts v
   exact ⟨_, bin_eq_filter ts vs hts hvs _ hb, List.mem_filter.mpr ⟨hv, hin⟩⟩
 
 /-! ### the `histogram_t` object (constructor sorts both inputs) -/
@@ -315,7 +317,7 @@ theorem hist_bin_spec (sort : List α → List α) (hs : SortSpec sort) (vs ts :
   rw [hh] at hh'
   cases hh'
   have hlen : (msort ts).length = ts.length := (msort_perm ts).length_eq
-  obtain ⟨hb, hin, -, -⟩ := binOf_spec (msort ts) (msort_sorted ts) v
+  obtain ⟨hb, hin, -, -⟩ := binOf_spec (msort ts) v
   unfold Hist.bin
   rw [hthr]
   refine ⟨by omega, hin, ?_, ?_⟩
@@ -424,8 +426,10 @@ theorem percentile_thresholds_spec (sort : List α → List α) (hs : SortSpec s
     have hps' : msort ps ≠ [] := by
       intro e; have := (msort_perm ps).length_eq; rw [e] at this; exact hps (List.length_eq_zero_iff.mp this.symm)
     have hr' : ∀ p ∈ msort ps, 0 < p ∧ p < 100 := fun p hp => hrange p ((msort_perm ps).mem_iff.mp hp)
-    obtain ⟨a, ha⟩ := List.head?_isSome.mpr hvs' |> Option.isSome_iff_exists.mp
-    obtain ⟨p0, hp0⟩ := List.head?_isSome.mpr hps' |> Option.isSome_iff_exists.mp
+    obtain ⟨a, la, hva⟩ := List.exists_cons_of_ne_nil hvs'
+    obtain ⟨p0, lp, hpa⟩ := List.exists_cons_of_ne_nil hps'
+    have ha : (msort vs).head? = some a := by rw [hva]; rfl
+    have hp0 : (msort ps).head? = some p0 := by rw [hpa]; rfl
     have hp1 : (msort ps).getLast? = some ((msort ps).getLast hps') := List.getLast?_eq_some_getLast hps'
     simp only [ha, hp0, hp1]
     have c0 : 0 < p0 := (hr' p0 (List.mem_of_mem_head? hp0)).1
@@ -467,34 +471,38 @@ open Gen.Stats
 /-- `ℚ` is an instance of the scalar the theorems quantify over; `msort` meets `SortSpec` there -/
 example : SortSpec (msort : List ℚ → List ℚ) := mergeSort_sortSpec
 
-example : ∃ (l r : ℕ) (hl : l < 4) (hr : r < 4), l ≤ r ∧ r ≤ l + 1 ∧
-    percentileSorted ([1, 2, 3, 4] : List ℚ) 50 = some (if l = r then [1, 2, 3, 4][l] else ([1, 2, 3, 4][l] + [1, 2, 3, 4][r]) / 2) := by
-  obtain ⟨l, r, hl, hr, -, -, -, -, h1, h2, h3⟩ :=
+/-- the hypotheses of `percentile_spec` are satisfiable, and the model computes the expected values -/
+example : ∃ v, percentileSorted ([1, 2, 3, 4] : List ℚ) 50 = some v := by
+  obtain ⟨l, r, hl, hr, -, -, -, -, -, -, h⟩ :=
     percentile_spec ([1, 2, 3, 4] : List ℚ) 50 (by simp) (by norm_num) (by norm_num)
-  exact ⟨l, r, hl, hr, h1, h2, h3⟩
+  exact ⟨_, h⟩
+example : percentileSorted ([1, 2, 3, 4] : List ℚ) 50 = some (5 / 2) := by decide +kernel
+example : percentileSorted ([1, 2, 3, 4, 7] : List ℚ) (25 / 2) = some (3 / 2) := by decide +kernel
+example : percentileSorted ([1, 2, 3, 4, 7] : List ℚ) 100 = some 7 := by decide +kernel
+example : medianSorted ([1, 2, 7] : List ℚ) = some 2 := by decide +kernel
 
-/-- even length: midpoint of the two middle values; odd length: the middle value -/
-example : medianSorted ([1, 2, 3, 4] : List ℚ) = some (5 / 2) := by
-  obtain ⟨_, _, h⟩ := (median_spec ([1, 2, 3, 4] : List ℚ) 1).2 rfl
-  rw [h]; norm_num
-example : medianSorted ([1, 2, 7] : List ℚ) = some 2 := by
-  obtain ⟨_, h⟩ := (median_spec ([1, 2, 7] : List ℚ) 1).1 rfl
-  rw [h]; rfl
+/-- unsorted input: the sorted permutation is forced by `SortSpec`, whichever sort is used -/
+example : percentile msort ([4, 1, 3, 2, 7] : List ℚ) (25 / 2) = some (3 / 2) := by
+  have h : msort ([4, 1, 3, 2, 7] : List ℚ) = [1, 2, 3, 4, 7] :=
+    sorted_perm_unique ((msort_perm _).trans (by decide +kernel)) (msort_sorted _) (by decide +kernel)
+  unfold percentile
+  rw [h]
+  decide +kernel
 
 /-- the defect example of DESIGN.md §6: thresholds {0, 5/2}, data {-1/2, 1, 2, 27/10, 3}: counts 1 2 2, and after the
     fix `bin(27/10) = 2`, `bin(-1/2) = 0` (the truncating code answered 1 and 1) -/
-example : (bins ([0, 5 / 2] : List ℚ) [-1 / 2, 1, 2, 27 / 10, 3]).map List.length = [1, 2, 2] := by
-  simp [bins, splitLt]; norm_num
-example : binOf ([0, 5 / 2] : List ℚ) (27 / 10) = 2 ∧ binOf ([0, 5 / 2] : List ℚ) (-1 / 2) = 0 := by
-  constructor <;> (simp [binOf, upperBound]; norm_num)
+example : (bins ([0, 5 / 2] : List ℚ) [-1 / 2, 1, 2, 27 / 10, 3]).map List.length = [1, 2, 2] := by decide +kernel
+example : binOf ([0, 5 / 2] : List ℚ) (27 / 10) = 2 ∧ binOf ([0, 5 / 2] : List ℚ) (-1 / 2) = 0 := by decide +kernel
 example : inBin ([0, 5 / 2] : List ℚ) 2 (27 / 10) = true ∧ inBin ([0, 5 / 2] : List ℚ) 1 (27 / 10) = false := by
-  constructor <;> (simp [inBin]; norm_num)
+  decide +kernel
 
 /-- duplicated thresholds give an empty bin between them, and the error branches are reachable -/
-example : (bins ([1, 1] : List ℚ) [0, 1, 2]).map List.length = [1, 0, 2] := by
-  simp [bins, splitLt]
-example : mkHist msort ([1, 2] : List ℚ) [] = none := by simp [mkHist]
-example : percentileSorted ([1, 2] : List ℚ) 101 = none := ((percentileSorted_rejects [1, 2] 101).2 (by norm_num))
+example : (bins ([1, 1] : List ℚ) [0, 1, 2]).map List.length = [1, 0, 2] := by decide +kernel
+example : ((bins ([1, 1] : List ℚ) [0, 1, 2]).map binStat).map (·.mean) = [some 0, none, some (3 / 2)] := by
+  decide +kernel
+example : (mkHist msort ([1, 2] : List ℚ) []).isNone = true := by simp [mkHist]
+example : percentileSorted ([1, 2] : List ℚ) 101 = none :=
+  (percentileSorted_rejects ([1, 2] : List ℚ) 101).2 (Or.inr (by norm_num))
 example : storeStatsPercentiles.length + 3 = storeStatsSlots := by decide
 
 end examples
